@@ -152,7 +152,8 @@ def abstract_sentence(s, ctx, env):
 
 def abstract_world(w, env):
     if w is None:
-        return None
+        # a node without a world is only right in a logic without worlds
+        return None if env['w'] is None else 'missing'
     if w == env['w']:
         return 'same'
     if w in env['old_worlds']:
